@@ -38,7 +38,7 @@ def export_behaviours(chk, cfgs, simulate=None):
                         continue
                 keep.append(r)
             reps = keep
-        cap = int(os.environ.get("VERIF_DIR_CAP", "40000"))
+        cap = int(os.environ.get("VERIF_DIR_CAP", "15000"))
         if chk.tier == "quick" and cfg in QUICK_CAPS:
             cap = QUICK_CAPS[cfg]
         if len(reps) > cap:
